@@ -187,6 +187,7 @@ def run_case(case, step_oracle, *, final_oracle=None, nontrivial=None, extra_cla
             kw['guards'] = all_known_signatures()
         kw.update(sim_kw or {})
         w = World(**kw)
+        out['cur_w'] = w
         await w.start()
         fails = []
         fine = {'fails': None}
@@ -230,10 +231,22 @@ def run_case(case, step_oracle, *, final_oracle=None, nontrivial=None, extra_cla
             await w.close()
         return fails
 
+    from vlib.aiosched import Deadlock
     loop = new_loop()
+    loop.set_exception_handler(lambda lp, ctx: None)     # async-generator finalisers after close are noise
+    loop.detect_deadlock = True
+    loop.max_time = loop.time() + 3.0e6
     try:
-        fails = loop.run_until_complete(go())
+        try:
+            fails = loop.run_until_complete(go())
+        except Deadlock as e:
+            w = out.get('cur_w')
+            last = w.log[-1][0] if w is not None and w.log else None
+            n = len(w.log) if w is not None else 0
+            fails = [('deadlock', 'every request is answered', f'the op after #{n - 1} ({last}) never returns: {e}')]
+            out.setdefault('w', w)
     finally:
+        loop.detect_deadlock = False
         close_loop(loop)
     w = out['w']
     cls = classify(w)
@@ -246,7 +259,7 @@ def run_case(case, step_oracle, *, final_oracle=None, nontrivial=None, extra_cla
 
 
 def standard_module(prop, profile, step_oracle, nontrivial, rule, *, quick_n=25, thorough_n=1200, max_ops=40, final_oracle=None,
-                    extra_classes=None, txn_oracle=None):
+                    extra_classes=None, txn_oracle=None, unguarded_shards=0):
     """Build plan/run_shard/replay for a history property."""
     def check(case):
         return run_case(case, step_oracle, final_oracle=final_oracle, nontrivial=nontrivial, extra_classes=extra_classes,
@@ -254,14 +267,16 @@ def standard_module(prop, profile, step_oracle, nontrivial, rule, *, quick_n=25,
 
     def plan(tier):
         n = quick_n if tier == 'quick' else thorough_n
-        return [dict(kind='hyp', n=n) for _ in range(16)]
+        return [dict(kind='hyp', n=n, unguarded=(i < unguarded_shards)) for i in range(16)]
 
     def run_shard(spec, seed, tier):
         from vlib.runner import Result
         from vlib.hyp import search
         res = Result()
-        search(res, prop, strategies(profile, max_ops=max_ops if tier == 'quick' else max_ops * 2), check, spec['n'], seed,
-               shrink=True)
+        strat = strategies(profile, max_ops=max_ops if tier == 'quick' else max_ops * 2)
+        if spec.get('unguarded'):
+            strat = strat.map(lambda c: dict(c, unguarded=True))
+        search(res, prop, strat, check, spec['n'], seed, shrink=True)
         return res
 
     def replay(case):
